@@ -114,6 +114,17 @@ class Exec(Engine):
             return [st]  # docstring
         return [s for s, _ in self.ev(stmt.value, st)]
 
+    def st_Import(self, stmt, st):
+        """`import m` inside a function (an availability probe such as `try: import matplotlib`): the assumed contract 'import:m' says when it raises ImportError.
+        The imported name itself must not be used by the function (it is not bound)."""
+        states = [st]
+        for a in stmt.names:
+            c = self.reg.contracts.get("import:" + a.name)
+            if c is None or c.params:
+                raise OutOfSubset(f"import {a.name} at line {stmt.lineno} (no contract import:{a.name})")
+            states = [s2 for s in states for s2, _ in self.reg.apply_contract(self, c, [], {}, s, stmt)]
+        return states
+
     def st_Return(self, stmt, st):
         if stmt.value is None:
             st.flow, st.ret = "return", VNONE
@@ -655,6 +666,8 @@ class Exec(Engine):
             self.spec = True
             try:
                 v = self.ev1(tree, st)
+            except UnknownName:
+                continue   # the instance speaks about a local of another path: nothing is assumed on this one
             finally:
                 self.spec = saved
             st.assume(self.truth(v))
